@@ -10,6 +10,7 @@ VERIF="$(cd "$(dirname "$0")/.." && pwd)"
 N="${1:-40}"; shift || true
 PROPS="${*:-C01 C08 C10 C11 C16 C18 C19 C20}"
 export GOFLAGS=-mod=mod GOPROXY=off GOSUMDB=off GOTOOLCHAIN=local
+export GODEBUG="${GODEBUG:+$GODEBUG,}randautoseed=0"
 export GOCACHE="${QV_GOCACHE:-/verif/.cache/go-build}"
 S="$(mktemp -d "${TMPDIR:-/tmp}/qvself.XXXXXX")"; trap 'rm -rf "$S"' EXIT
 rsync -a --exclude .git "${QV_REPO:-/repo}"/ "$S/qeep/"
